@@ -52,7 +52,10 @@ pub fn ctx_case(ops: &str) -> String {
     let dump = |x: &HashMapContext<DefaultNumericTypes>| {
         let mut v: Vec<(String, String)> = x.iter_variables().map(|(k, v)| (hex(k), value_text(&v))).collect();
         v.sort();
-        format!("{:?} off={}", v, x.are_builtin_functions_disabled())
+        let mut names: Vec<String> = x.iter_variable_names().map(|k| hex(&k)).collect();
+        names.sort();
+        let listed: Vec<String> = v.iter().map(|(k, _)| k.clone()).collect();
+        format!("{:?} off={}{}", v, x.are_builtin_functions_disabled(), if names == listed { String::new() } else { format!(" names={:?}", names) })
     };
     let mut fn_leak = false;
     for f in &fns {
